@@ -129,6 +129,8 @@ type Enc struct {
 	assertDone  map[*AssertAt]bool
 	curInstr    ssa.Instruction   // instruction of the verified function being encoded (not of inlined callees)
 	lockHeap    map[string]string // heap right after the first Lock in the function body
+	lockHeaps   []map[string]string
+	lockInstrs  []ssa.Instruction
 	curBindings []Val             // bindings of the closure whose contract is being applied
 	spawning    bool              // the contract is applied for a go statement
 	protected   map[*loopInfo][]*ssa.Range
@@ -348,6 +350,30 @@ func (e *Enc) resolveCompSpec(m string, pkgPath string) []string {
 			out = append(out, e.ghostComp(g).Name)
 		}
 		return out
+	}
+	if (strings.HasPrefix(m, "mapof(") || strings.HasPrefix(m, "elemsof(")) && strings.HasSuffix(m, ")") {
+		// the map (slice element) components of the type of a struct field, for types that are
+		// awkward to write in a comma-separated list: mapof(T.f), elemsof(T.f)
+		inner := m[strings.Index(m, "(")+1 : len(m)-1]
+		i := strings.LastIndex(inner, ".")
+		if i > 0 {
+			if t, err := e.evalType(inner[:i], pkg); err == nil {
+				if si := e.W.structInfo(t); si != nil {
+					if fi := fieldIndex(si.St, inner[i+1:]); fi >= 0 {
+						ft := si.St.Field(fi).Type()
+						if mt, ok := ft.Underlying().(*types.Map); ok && strings.HasPrefix(m, "mapof(") {
+							d, v, l := e.W.mapComps(mt)
+							return []string{d.Name, v.Name, l.Name}
+						}
+						if sl, ok := ft.Underlying().(*types.Slice); ok && strings.HasPrefix(m, "elemsof(") {
+							return []string{e.W.elemComp(sl.Elem()).Name}
+						}
+					}
+				}
+			}
+		}
+		e.errors = append(e.errors, fmt.Sprintf("modifies %q: not a map/slice field", m))
+		return nil
 	}
 	evalType := func(s string) types.Type {
 		t, err := e.evalType(s, pkg)
